@@ -145,6 +145,8 @@ def gen_load_case(rng: random.Random, tier: str, prop: str, k: int = -1) -> Dict
         cfg.p_drop_kernel, cfg.p_sync, cfg.unlinked_head = 1.0, 0.3, 0
     if cfg.pre_ops == 0 and cfg.n_steps == 0 and cfg.post_ops == 0:
         cfg.pre_ops = 1
+    if prop == "C12" and k % 10 == 6 and cfg.n_steps <= 4:
+        cfg.first_step_no = (32766, 65534, 32767)[(k // 10) % 3]      # a trace taken late in a long run: step numbers cross a 16-bit edge
     ranks = gen.gen_trace_set(rng, cfg)
     if cfg.frac > 1:
         # the loader's inward rounding is switched per file by the dtype of the ts column: a file whose start times all happen to be
